@@ -5,6 +5,7 @@ import (
 	"fmt"
 
 	"github.com/sboehler/knut/lib/common/cpr"
+	"github.com/sboehler/knut/lib/common/verif"
 	"github.com/sboehler/knut/lib/model/account"
 	"github.com/sboehler/knut/lib/model/assertion"
 	cls "github.com/sboehler/knut/lib/model/close"
@@ -59,6 +60,7 @@ func FromStream(reg *registry.Registry, inCh <-chan syntax.File) (<-chan []Direc
 					}
 					ds = append(ds, m...)
 				}
+				verif.Emit("Converted", "n", len(ds), "syntax", len(input.Directives))
 				return cpr.Push(ctx, ch, ds)
 			})
 			return nil
